@@ -477,7 +477,7 @@ def _run_history(sh, fa, zy, rng, scratch, hidx, schemas, repo_dir, repo_root, r
                            "jwrite", "jread", "generate", "expand", "swrite_bad", "sread_trunc", "parse_unknown_ref", "cwrite_bad",
                            "gen_roundtrip", "gen_roundtrip", "dangling_ref", "dangling_ref", "load", "load_other",
                            "cwrite_meta", "cwrite_meta", "tee_block", "swrite_opts", "swrite_opts", "cwrite_opts",
-                           "sread_shared_reader", "sread_shared_reader", "cappend", "cappend"])
+                           "sread_shared_reader", "sread_shared_reader", "cappend", "cappend", "parse_bad_enum_default"])
         name, args, data_args = None, None, []
         if kind == "parse":
             name, args = "parse", (sarg, None)
@@ -553,6 +553,30 @@ def _run_history(sh, fa, zy, rng, scratch, hidx, schemas, repo_dir, repo_root, r
                     name, args = "cappend", (raw, sarg, [fd if rng.random() < 0.7 else d])
                     if fkey != which:
                         sh.count("append_to_file_of_other_definition")
+        elif kind == "parse_bad_enum_default":
+            # the same schema with an enum default outside its symbol list: refused, however often
+            # the well-formed enum of these symbols has been parsed before
+            bad_js = copy.deepcopy(js)
+            hit = []
+
+            def spoil(n):
+                if isinstance(n, list):
+                    for b in n:
+                        spoil(b)
+                elif isinstance(n, dict):
+                    if n.get("type") == "enum" and not hit:
+                        n["default"] = "NOT_A_SYMBOL_OF_IT"
+                        hit.append(1)
+                    for k in ("items", "values", "type"):
+                        if isinstance(n.get(k), (dict, list)):
+                            spoil(n[k])
+                    for f in n.get("fields", []) if isinstance(n.get("fields"), list) else []:
+                        spoil(f["type"])
+
+            spoil(bad_js)
+            if hit:
+                name, args = rng.choice([("parse", (bad_js, None)), ("pcf", (bad_js,)), ("swrite", (bad_js, d))])
+                sh.count("ill_formed_twin_after_valid_schema")
         elif kind == "tee_block":
             st, raw = guard(op_cwrite, fa, copy.deepcopy(js), [d, d, d], rng.choice(["null", "deflate"]))
             if st == "ok":
